@@ -186,6 +186,37 @@ def model_check_all(models):
     return gen, dist, names
 
 
+def prove(name):
+    """Runs the TLAPS proof spec/proofs/<name>.tla (unbounded version of invariants TLC checks within bounds) in a
+    scratch copy.  A proof is about the design model only: its outcome is reported in the evidence and the log and
+    never changes a verdict."""
+    import shutil
+    tl = shutil.which("tlapm")
+    if not tl:
+        return "tlapm not installed: proof %s not attempted" % name
+    d = os.path.join(scratch(), "proof-" + name)
+    os.makedirs(d, exist_ok=True)
+    for f in os.listdir(SPEC):
+        if f.endswith(".tla"):
+            shutil.copy(os.path.join(SPEC, f), d)
+    # proof-only signatures (uninterpreted operators) take the place of modules tlapm cannot read (RECURSIVE)
+    for f in os.listdir(os.path.join(SPEC, "proofs", "stubs")):
+        shutil.copy(os.path.join(SPEC, "proofs", "stubs", f), d)
+    shutil.copy(os.path.join(SPEC, "proofs", name + ".tla"), d)
+    try:
+        p = subprocess.run([tl, "--threads", "8", name + ".tla"], cwd=d, stdout=subprocess.PIPE, stderr=subprocess.STDOUT, text=True, timeout=900)
+        out = p.stdout
+    except subprocess.TimeoutExpired:
+        return "proof %s: tlapm timed out" % name
+    m = re.search(r"All (\d+) obligations? proved", out)
+    if m and p.returncode == 0:
+        res = "proof %s: all %s obligations proved by tlapm" % (name, m.group(1))
+    else:
+        res = "proof %s: NOT proved (rc=%s): %s" % (name, p.returncode, out[-300:].replace("\n", " "))
+    log(res)
+    return res
+
+
 def tlc_stats(out):
     """(generated, distinct) from TLC's summary line, or (0,0)."""
     m = re.findall(r"(\d+) states generated, (\d+) distinct states found", out)
